@@ -54,6 +54,10 @@ def cases(tier, seed):
             if cbs < isz:
                 continue
             yield dict(kind='roundtrip', itemsize=isz, cbs=cbs, nmax=80 if tier == 'quick' else 300)
+    # wide records (structured rows wider than blosc's 255-byte typesize limit): refused with an error, or round-tripped
+    for isz in (256, 300):
+        for cbs in (isz, 4 * isz, 4096, 1 << 22):
+            yield dict(kind='roundtrip', itemsize=isz, cbs=cbs, nmax=24 if tier == 'quick' else 80)
     # one compressor object used for several blocks in a row (also after a truncated read): no state may survive a call
     yield dict(kind='reuse', depth=2 if tier == 'quick' else 3)
     # two decompressions running on ONE compressor object at the same time: every interleaving of their chunk reads
@@ -287,11 +291,17 @@ def run_roundtrip(case):
     from abacusnbody.data.asdf import BloscCompressor
     isz = case['itemsize']
     probs = []
-    n = 0
+    n = refused = 0
     for nit in range(case['nmax'] + 1):
         pay = payload(nit, isz)
-        arr = np.frombuffer(pay, dtype={1: 'u1', 2: 'u2', 4: 'u4', 8: 'u8'}[isz])
-        stream = b''.join(bytes(x) for x in BloscCompressor().compress(memoryview(arr), compression_block_size=case['cbs']))
+        arr = np.frombuffer(pay, dtype={1: 'u1', 2: 'u2', 4: 'u4', 8: 'u8'}.get(isz, f'V{isz}'))
+        try:
+            stream = b''.join(bytes(x) for x in BloscCompressor().compress(memoryview(arr), compression_block_size=case['cbs']))
+        except (ValueError, TypeError) as e:
+            if isz > 255:
+                refused += 1        # the codec's typesize limit: an error is an acceptable answer, silent truncation is not
+                continue
+            raise
         try:
             split_frames(stream)
         except AssertionError as e:
@@ -301,7 +311,7 @@ def run_roundtrip(case):
             n += 1
             if obs['err'] or obs['ret'] != len(pay) or obs['out'] != pay or not obs['guard_ok']:
                 probs.append(dict(sig='roundtrip:identity', msg=f'{nit} items x {isz}B cbs={case["cbs"]} chunks of {chunks[:1]}: err={obs["err"]} ret={obs["ret"]}'))
-    return dict(problems=probs[:5], evals=n, traces=n, nt=[('roundtrip', isz, case['cbs'])], extra=dict(roundtrips=n))
+    return dict(problems=probs[:5], evals=n, traces=n, nt=[('roundtrip', isz, case['cbs'])], extra=dict(roundtrips=n, wide_records_refused=refused))
 
 
 def run_asdf(case):
